@@ -306,6 +306,8 @@ def judge(ctx, stream, cases, limit):
 
 
 def known_class(c, io, mo):
+    if c.get('unit', 'biprop') == 'biprop' and not any(v for _, row in c['votes'] for _, v in row) and io.startswith('(0'):
+        return 'C07-all-zero'
     return None
 
 
@@ -486,6 +488,11 @@ def gen_exhaustive():
                 yield dict(unit='biprop', div=div, votes=[[1, [[1, a], [2, b]]], [2, [[1, cc], [2, dd]]]], n=n, seats=['total'])
 
 
+def gen_all_zero():
+    for nd, np_, n, div in [(2, 2, 4, 1), (2, 3, 3, 2), (3, 2, 6, 1)]:
+        yield dict(unit='biprop', div=div, votes=[[d, [[p, 0] for p in range(1, np_ + 1)]] for d in range(1, nd + 1)], n=n, seats=['total'])
+
+
 def corpus():
     for p in sorted(glob.glob(os.path.join(common.VERIF, 'corpus', ID, '*.json'))):
         yield json.load(open(p))
@@ -495,6 +502,7 @@ def explore(ctx, widen=1):
     limit = 10 if ctx.tier == 'quick' else 30
     judge(ctx, 'corpus', [c for c in corpus() if c.get('unit') == 'biprop'], limit)
     judge(ctx, 'exhaustive-2x2', list(gen_exhaustive()), limit)
+    judge(ctx, 'all-zero', list(gen_all_zero()), limit)
     ctx.exhaustive = False
     judge(ctx, 'random', list(gen_random(ctx.rng, ctx.n(2500, 40000) * widen)), limit)
     judge(ctx, 'boundary', list(gen_boundary(ctx.rng, ctx.n(1200, 15000) * widen)), limit)
